@@ -113,7 +113,7 @@ func c12GenOne(r *world.Rng, tier string, n int) *C12Sc {
 		sc.Dense = r.Pick(0, 1, 10, 200, 3000)
 	}
 	if sc.MemKind != "map" {
-		sc.Dense = r.Pick(0, 10, 40, 80, 100, 100, 101, 102, 103, 104, 105, 106) // 100: nothing but prefix bytes; 101..104: one and the same prefix everywhere (DD, FD, DD/FD mixed, ED)
+		sc.Dense = r.Pick(0, 10, 40, 80, 100, 100, 101, 102, 103, 104, 105, 106, 107, 108) // 100: nothing but prefix bytes; 101..104: one and the same prefix everywhere (DD, FD, DD/FD mixed, ED)
 	}
 	switch r.Intn(3) {
 	case 0:
@@ -178,6 +178,16 @@ func c12GenOne(r *world.Rng, tier string, n int) *C12Sc {
 			ev.Data = hex.EncodeToString([]uint8{[]uint8{0x76, 0xd3, 0xdb, 0xed, 0x7e, 0x34, 0xe1}[r.Intn(7)], r.Byte()}) // HALT / I/O / memory access in mode 0
 		case 5:
 			ev.Data = hex.EncodeToString([]uint8{0xdd, 0xcb})
+		case 6:
+			// a control transfer that lands where it came from: JR/DJNZ/JR cc onto itself, JP to the scenario's
+			// start PC (where a request raised at boundary 0 interrupts), JP (HL) / RET
+			pc := sc.Regs.PC
+			pool := [][]uint8{{0x18, 0xfe}, {0x10, 0xfe}, {0x20, 0xfe}, {0x28, 0xfe}, {0x30, 0xfe}, {0x38, 0xfe}, {0xc3, uint8(pc), uint8(pc >> 8)},
+				{0xe9}, {0xc9}, {0xcd, uint8(pc), uint8(pc >> 8)}, {0xc7}, {0xdd, 0xe9}}
+			ev.Data = hex.EncodeToString(pool[r.Intn(len(pool))])
+			if r.Bool() {
+				ev.AtTick, ev.AtStep, ev.Do = 0, 0, ""
+			}
 		default:
 			ev.Data = hex.EncodeToString(r.Bytes(r.Range(1, 4)))
 		}
@@ -304,6 +314,12 @@ func c12Build(sc *C12Sc, env *Env) *c12World {
 				continue
 			case 104:
 				b[i] = 0xed
+				continue
+			case 107:
+				b[i] = 0xfb // nothing but EI
+				continue
+			case 108:
+				b[i] = uint8(sc.MemSeed) // one and the same byte everywhere, whichever
 				continue
 			case 105, 106:
 				// a sled of two-byte codes, the second byte counting up: hundreds of DIFFERENT unsupported
